@@ -69,7 +69,9 @@ package dragonboat
 // the update is acknowledged to the raft core (which then treats its entries as persisted) only
 // after the save
 //@ func (n *node) commitRaftUpdate [C04]
-//@ trusted three-line body (raftMu.Lock; Peer.Commit; Unlock); the typestate requirement is checked at its call site
+//@ noframe
+//@ nobounds
+//@ ensures raftio.gSaved == old(raftio.gSaved)
 //@ requires raftio.gSaved
 
 // the step pipeline: collect updates, send Replicate early, persist, then send the rest and commit
@@ -85,37 +87,63 @@ package dragonboat
 
 // callees of the pipeline that send nothing (every send goes through the three functions above)
 //@ func (n *node) stepNode [C04]
-//@ trusted steps the raft core under raftMu and returns its update; sends at most Quiesce messages (sendEnterQuiesceMessages is under contract)
+//@ noframe
+//@ nobounds
+//@ ensures raftio.gSaved == old(raftio.gSaved)
 //@ func (n *node) stopped [C04]
 //@ trusted reads the stop channel
 //@ func (e *engine) applySnapshotAndUpdate [C04]
-//@ trusted queues snapshot/apply tasks; sends no raft message
+//@ noframe
+//@ nobounds
+//@ ensures raftio.gSaved == old(raftio.gSaved)
 // C16: the flag file of a received snapshot is removed only after its record is durable
 //@ func (e *engine) onSnapshotSaved [C04 C16]
 //@ trusted removes snapshot flag files; sends no raft message
 //@ requires raftio.gSaved
 //@ func (e *engine) processMoreCommittedEntries [C04]
-//@ trusted marks the shard step-ready; sends no raft message
+//@ noframe
+//@ nobounds
+//@ ensures raftio.gSaved == old(raftio.gSaved)
 //@ func (n *node) processReadyToRead [C04]
-//@ trusted completes local read requests; sends no raft message
+//@ noframe
+//@ nobounds
+//@ ensures raftio.gSaved == old(raftio.gSaved)
 //@ func (n *node) processDroppedEntries [C04]
-//@ trusted notifies dropped proposals; sends no raft message
+//@ noframe
+//@ nobounds
+//@ ensures raftio.gSaved == old(raftio.gSaved)
 //@ func (n *node) processDroppedReadIndexes [C04]
-//@ trusted notifies dropped reads; sends no raft message
+//@ noframe
+//@ nobounds
+//@ ensures raftio.gSaved == old(raftio.gSaved)
 //@ func (n *node) processLogQuery [C04]
-//@ trusted completes a log query; sends no raft message
+//@ noframe
+//@ nobounds
+//@ ensures raftio.gSaved == old(raftio.gSaved)
 //@ func (n *node) processLeaderUpdate [C04]
-//@ trusted publishes the leader info; sends no raft message
+//@ noframe
+//@ nobounds
+//@ ensures raftio.gSaved == old(raftio.gSaved)
 //@ func (n *node) removeLog [C04]
-//@ trusted log compaction bookkeeping; sends no raft message
+//@ noframe
+//@ nobounds
+//@ ensures raftio.gSaved == old(raftio.gSaved)
 //@ func (n *node) runSyncTask [C04]
-//@ trusted schedules the on-disk state machine sync; sends no raft message
+//@ noframe
+//@ nobounds
+//@ ensures raftio.gSaved == old(raftio.gSaved)
 //@ func (n *node) saveSnapshotRequired [C04]
-//@ trusted pure decision
+//@ noframe
+//@ nobounds
+//@ ensures raftio.gSaved == old(raftio.gSaved)
 //@ func (n *node) pushTakeSnapshotRequest [C04]
-//@ trusted queues a snapshot task; sends no raft message
+//@ noframe
+//@ nobounds
+//@ ensures raftio.gSaved == old(raftio.gSaved)
 //@ func resetNodeUpdate [C04]
-//@ trusted clears slices of the already processed updates
+//@ noframe
+//@ nobounds
+//@ ensures raftio.gSaved == old(raftio.gSaved)
 
 // ---------------------------------------------------------------- the table of in-flight proposals (C12)
 // From the property: exactly one terminal result per request, never a result that belongs to
